@@ -139,6 +139,33 @@ class Controller(object):
       t.sem.release()
       self.back.acquire()
 
+  # ---- explicit stepping (used when a spec behaviour dictates who moves)
+  def start(self):
+    for t in self.threads:
+      t.sem.release()
+      self.back.acquire()
+
+  def grant(self, t):
+    """let thread t perform its pending operation and run to its next one"""
+    if t.done or t.pending is None:
+      raise RuntimeError("thread %s has nothing pending" % t.name)
+    if t.pending[2] is not None and not t.pending[2]():
+      raise RuntimeError("thread %s: pending op %s is not enabled" % (t.name, t.pending[0]))
+    self.steps += 1
+    t.sem.release()
+    self.back.acquire()
+
+  def run_until(self, t, stop_ops, limit=200):
+    """grant t at least once, then until its pending op is one of stop_ops (or it is done)"""
+    n = 0
+    while True:
+      self.grant(t)
+      n += 1
+      if t.done or (t.pending is not None and t.pending[0] in stop_ops):
+        return n
+      if n >= limit:
+        raise RuntimeError("thread %s did not reach %s" % (t.name, stop_ops))
+
   def shutdown(self):
     self.abort = True
     for t in self.threads:
